@@ -7,6 +7,7 @@ from ..core import (AnalysisIncomplete, call_name, const_value, kwarg,
                     walk_local)
 from ..patterns import (Cmp, assigns_to, calls_in, check_no_arg_mutation,
                         conjuncts, finfo, returns_of, subscript_stores)
+from ..match import C, CS
 
 RO = 'enspara/geometry/rotamer.py'
 DI = 'enspara/cards/disorder.py'
@@ -174,7 +175,7 @@ def d3_gates(ck, mod):
             if inner:
                 tests[u(n.test)] = (u(inner[0].test), [u(x) for x in inner[0].body])
     wrap = tests.get('upper_bound < lower_bound')
-    norm = tests.get('upper_bound > lower_bound')
+    norm = tests.get(C('upper_bound > lower_bound'))
     ok = wrap is not None and wrap[0] == 'upper_bound <= %s <= lower_bound' % na and wrap[1] == ['result = True']
     ck.check(ok, rule + '.exit-test', mod, ft, 'is_buffered_transition', 'wrap-around: %s' % (wrap,),
              'for the wrap-around basin (gates flipped) the exit region is BETWEEN the gates',
